@@ -132,7 +132,7 @@ def renumber(sc):
 def run_scenario(exe, sc, scratch, tag, seed, max_rounds=800):
     rng = random.Random(seed)
     sess = pmenv.Session(exe, sc.cfg, scratch, tag, rng, args=sc.args, env=sc.env)
-    alive = pmenv.drive(sess, sc.script, max_rounds=max_rounds)
+    alive = pmenv.drive(sess, sc.script, max_rounds=sc.tags.get("max_rounds", max_rounds))
     sess.alive_after_script = alive
     sess.final = sess.finish()
     return sess
